@@ -88,7 +88,7 @@ Theorem cv_enum_snoc name nm pfx opts o :
 Proof.
   intros Hne. destruct opts as [|o0 r]; [contradiction|].
   unfold J5sConvert.cv_enum. cbn [e_opts e_prefix app].
-  destruct (has_suffix unspecified o0); cbn [en_vals].
+  destruct (explicit_zero _ o0); cbn [en_vals].
   - rewrite number_opts_app. cbn [number_opts].
     eexists. split; [rewrite app_comm_cons; reflexivity|].
     cbn [snd length]. rewrite number_opts_length. lia.
@@ -97,14 +97,19 @@ Proof.
     cbn [snd length]. rewrite number_opts_length. cbn [length]. lia.
 Qed.
 
-(* the zero value of an enum does not depend on options added after the first *)
+(* the zero value of an enum is <PREFIX>UNSPECIFIED whatever its options are (fix a65e1f2), so
+   it does not depend on options added at the end - not even on the first one *)
+Theorem cv_enum_zero name e :
+  nth_error (en_vals (cv_enum name e)) 0 = Some (enum_prefix screaming name (e_prefix e) ++ unspecified, 0).
+Proof.
+  unfold J5sConvert.cv_enum. destruct (e_opts e) as [|o r]; [reflexivity|].
+  destruct (explicit_zero _ o) eqn:Hx; cbn [en_vals nth_error]; [|reflexivity].
+  unfold explicit_zero in Hx. apply str_eqb_eq in Hx. rewrite Hx. reflexivity.
+Qed.
+
 Theorem cv_enum_zero_stable name nm pfx opts o :
-  opts <> [] ->
   nth_error (en_vals (cv_enum name (mkEnum nm pfx (opts ++ [o])))) 0 =
   nth_error (en_vals (cv_enum name (mkEnum nm pfx opts))) 0.
-Proof.
-  intros Hne. destruct opts as [|o0 r]; [contradiction|].
-  unfold J5sConvert.cv_enum. cbn [e_opts e_prefix app]. destruct (has_suffix unspecified o0); reflexivity.
-Qed.
+Proof. rewrite !cv_enum_zero. reflexivity. Qed.
 
 End Edit.
